@@ -92,3 +92,28 @@ package vecfc
 //@   modifies deref(b), deref(b)[*]
 //@   ensures  len(deref(b)) == max(old(len(deref(b))), 8 * (i + 1)) && hbwf(deref(b)) && hbFork(deref(b), i)
 //@   ensures  forall(j int, j >= 0 && j != i ==> hbSeq(deref(b), j) == old(hbSeq(deref(b), j)) && hbMin(deref(b), j) == old(hbMin(deref(b), j)))
+//@
+//@ // ---- merging (C06) ----
+//@ // gfork: some of the first n listed branches is marked as fork; gmax: the highest sequence among them (0 if none)
+//@ spec gfork(o []byte, from []idx.Validator, n int) bool = exists(j, 0, n, hbFork(o, from[j]))
+//@ spec gmax(o []byte, from []idx.Validator, n int) int = ite(n <= 0, 0, max(gmax(o, from, n-1), hbSeq(o, from[n-1])))
+//@ lemma gmax_ub(o []byte, from []idx.Validator, n int) by induction(n)
+//@   ensures  forall(k, 0, n, hbSeq(o, from[k]) <= gmax(o, from, n)) && gmax(o, from, n) >= 0
+//@ // GatherFrom merges the branches 'from' of one creator in 'other' into entry 'to' of the receiver: a fork if any of
+//@ // the branches is marked as fork, otherwise the entry of the first branch with the highest sequence (zero if all are empty)
+//@ func (*HighestBeforeSeq).GatherFrom
+//@   requires self != nil && hbwf(deref(self)) && to < 536870911 && typeis(_other, "*HighestBeforeSeq")
+//@   requires unbox(_other, "*HighestBeforeSeq") != nil && unbox(_other, "*HighestBeforeSeq") != self && hbwf(deref(unbox(_other, "*HighestBeforeSeq"))) && arrof(deref(unbox(_other, "*HighestBeforeSeq"))) != arrof(deref(self))
+//@   modifies deref(self), deref(self)[*]
+//@   ensures  [len] len(deref(self)) == max(old(len(deref(self))), 8 * (to + 1)) && hbwf(deref(self))
+//@   ensures  [fork] gfork(deref(unbox(_other, "*HighestBeforeSeq")), from, len(from)) ==> hbFork(deref(self), to)
+//@   ensures  [seq] !gfork(deref(unbox(_other, "*HighestBeforeSeq")), from, len(from)) ==> hbSeq(deref(self), to) == gmax(deref(unbox(_other, "*HighestBeforeSeq")), from, len(from))
+//@   ensures  [first] !gfork(deref(unbox(_other, "*HighestBeforeSeq")), from, len(from)) && hbSeq(deref(self), to) > 0 ==> exists(j, 0, len(from), hbSeq(deref(unbox(_other, "*HighestBeforeSeq")), from[j]) == hbSeq(deref(self), to) && hbMin(deref(unbox(_other, "*HighestBeforeSeq")), from[j]) == hbMin(deref(self), to) && forall(k, 0, j, hbSeq(deref(unbox(_other, "*HighestBeforeSeq")), from[k]) < hbSeq(deref(self), to)))
+//@   ensures  [none] !gfork(deref(unbox(_other, "*HighestBeforeSeq")), from, len(from)) && hbSeq(deref(self), to) == 0 ==> hbMin(deref(self), to) == 0
+//@   ensures  [others] forall(j int, j >= 0 && j != to ==> hbSeq(deref(self), j) == old(hbSeq(deref(self), j)) && hbMin(deref(self), j) == old(hbMin(deref(self), j)))
+//@   loop 1 invariant 0 <= _k && _k <= len(from)
+//@   loop 1 invariant !gfork(deref(other), from, _k)
+//@   loop 1 invariant highestBranchSeq.Seq == gmax(deref(other), from, _k)
+//@   loop 1 invariant highestBranchSeq.Seq == 0 ==> highestBranchSeq.MinSeq == 0
+//@   loop 1 hint use gmax_ub(deref(other), from, _k - 1)
+//@   loop 1 invariant highestBranchSeq.Seq > 0 ==> exists(j, 0, _k, hbSeq(deref(other), from[j]) == highestBranchSeq.Seq && hbMin(deref(other), from[j]) == highestBranchSeq.MinSeq && forall(k, 0, j, hbSeq(deref(other), from[k]) < highestBranchSeq.Seq))
